@@ -243,3 +243,43 @@ def h_copies(k: int, v1: int, v2: int, nested: bool, how: int) -> bool:
     else:
         cp = Calendar.from_ical(cal.to_ical())
     return cp == cal and cal == cp and not (cp != cal) and cp.to_ical() == cal.to_ical()
+
+
+def h_eq_deep(o1: int, o2: int, o3: int, o4: int, swap_top: bool, differ: int) -> bool:
+    """
+    Two same-named siblings with IDENTICAL properties whose children are listed in different orders
+    in the two trees (depth 3): equality ignores the order of subcomponents at every level, and
+    still sees a one-leaf difference.
+
+    pre: 0 <= o1 <= 1 and 0 <= o2 <= 1 and 0 <= o3 <= 1 and 0 <= o4 <= 1
+    pre: 0 <= differ <= 2
+    post: _
+    """
+    def leaf(name):
+        c = Component()
+        c.name = name
+        c.add("x-v", name)
+        return c
+
+    def event(names, flip):
+        ev = Event()
+        ev.add("summary", "same")
+        kids = [leaf(n) for n in names]
+        if flip:
+            kids.reverse()
+        for k in kids:
+            ev.add_component(k)
+        return ev
+
+    def build(f1, f2, swapped, second_names):
+        root = Calendar()
+        a = event(["X-M", "X-Z"], f1)
+        b = event(second_names, f2)
+        for e in ([b, a] if swapped else [a, b]):
+            root.add_component(e)
+        return root
+    names2 = [["X-N", "X-Y"], ["X-N", "X-Q"], ["X-M", "X-Z"]][differ]
+    A = build(bool(o1), bool(o2), False, ["X-N", "X-Y"])
+    B = build(bool(o3), bool(o4), bool(swap_top), names2)
+    exp = differ == 0
+    return (A == B) == exp and (B == A) == exp and (A != B) == (not exp)
